@@ -36,6 +36,9 @@ func (e *Eng) execFunc(fn *ssa.Function, args []*Val, bindings []*Val, st *State
 	}
 	fr.params = args
 	fr.old = st.clone()
+	if depth == 0 && len(e.inlineStack) == 0 {
+		e.rootFrame = fr
+	}
 	for i, fv := range fn.FreeVars {
 		if i < len(bindings) {
 			fr.vals[fv] = bindings[i]
@@ -851,6 +854,10 @@ func (e *Eng) execInstr(fr *Frame, b *ssa.BasicBlock, ins ssa.Instruction, st *S
 		e.set(st, lr, ls, sto(e.get(st, lr, ls), ref, "0"), "empty map len")
 		def(x, "Int", ref)
 	case *ssa.MakeChan:
+		sz := e.valOf(fr, st, x.Size)
+		if !isNumLit(sz.T) {
+			e.oblige("make", "chan:"+descr(x.Size, 0), e.safety(fr), x.Pos(), g, sx(">=", sz.T, "0"))
+		}
 		ref := e.alloc(st, "makechan")
 		e.set(st, chanClosedRegion, "(Array Int Bool)", sto(e.get(st, chanClosedRegion, "(Array Int Bool)"), ref, "false"), "open chan")
 		def(x, "Int", ref)
@@ -1122,6 +1129,11 @@ func (e *Eng) execTypeAssert(fr *Frame, x *ssa.TypeAssert, st *State, g string, 
 		e.sc.declare(unbox, fmt.Sprintf("(declare-fun %s (Int) %s)", unbox, e.sortOf(at)))
 		ok = and(not(eq(src.T, "0")), eq(sx("typeof", src.T), e.typeID(at)))
 		val = sx(unbox, src.T)
+		if derefType(at) != nil && types.TypeString(x.X.Type(), nil) == "error" {
+			// assumption: error values are never typed-nil pointers
+			e.sc.assume(implies(ok, not(eq(val, "0"))), "error interface does not hold a typed nil pointer")
+			e.note("assumed: an error interface value never holds a typed-nil pointer (type switches on errors dereference the pointer)")
+		}
 	}
 	okN := e.sc.define(fr.fn.Name()+"_"+x.Name()+"_ok", "Bool", ok, "type assert ok")
 	if x.CommaOk {
